@@ -13,7 +13,9 @@ def check(ctx: Ctx) -> None:
         "leaves every loop-carried state variable unchanged, in every reachable state (including block-in-inline "
         "contexts); every element-frame scenario yields the same tokens whatever the number and position of metadata "
         "children (n_meta in {0,1,>=2}, metadata first or not). Decides the three places where metadata is skipped "
-        "during rendering; dependency collection is C10.")
+        "during rendering; render()/str() expand the tree with tagify() first, so the expansion pass is included: its "
+        "splices never disturb positions it has not visited, and a metadata child is replaced by copy(child) in its own slot "
+        "(rules C09.splice / C08.copy, shared with C09 and C08). Dependency collection is C10.")
     ctx.trust("Engine A abstract semantics (sa/interp.py, sa/eval_*.py)")
     m = model(ctx)
     preconditions(ctx, m)
@@ -60,6 +62,17 @@ def check(ctx: Ctx) -> None:
                       f"metadata children change the element's markup: {fmt(toks)} instead of {fmt(ref)}"
                       + (f" (under extra condition {free[0][0]})" if free else ""))
     ctx.count("frame comparisons", nf)
+    # the expansion pass that precedes every render()/str(): positions of non-metadata children are preserved
+    from ..interp import Interp
+    from .c08 import tagify_table
+    from .c09 import splice_safety, splice_shape
+    I = Interp(ctx.prog)
+    splice_safety(ctx)
+    splice_shape(ctx, I)
+    tagify_table(ctx, I)
+    # a metadata node displayed inside `with tag:` reaches the tag as the object itself (not as its markup)
+    from .c17 import wrapper_table
+    wrapper_table(ctx, I, rule="C07.hook", only=META_KINDS)
 
 
 def thorough(ctx: Ctx) -> None:
